@@ -37,7 +37,7 @@ NGO_SHAPED = re.compile(r"__aux_|__dom_|__min_|__max_|__next_|__chain|__agg|uniq
 
 def budget(tier: str) -> int:
     """generated cases"""
-    return 1200 if tier == "quick" else 40000
+    return 1200 if tier == "quick" else 20000
 
 
 def corpus_items(tier: str) -> list:
